@@ -21,8 +21,8 @@ ALL_WEIGHTS_THOROUGH = True
 
 from cfgrules import FnInfo
 from facts import span_str
-from mirutil import bool_branch_taken, successors
-from symterm import Terms, affine, fmt
+from mirutil import bool_branch_taken, dominators, successors
+from symterm import Terms, affine, fmt, linear
 
 TS = "weighted::weighted_tree::WeightedTreeIndex::<W>::try_sample"
 
@@ -53,10 +53,68 @@ def _value_root(T, op, depth=0):
     return op["l"]
 
 
+def _inlined_child_form(T, inst, local):
+    """The body of `subtotal` written out at the use site: `local = if X < self.subtotals.len() { self.subtotals[X].clone() } else { ZERO }`.
+    Accepted only in exactly that shape: two definitions, a clone of `subtotals[X]` whose block is dominated by the true edge of a test
+    `X < len(subtotals)`, and the constant zero on the false edge of the same test.  Returns the affine form of X, else None."""
+    ds = T.body.defs.get(local, [])
+    if len(ds) != 2:
+        return None
+    reads = [d for d in ds if d[2] == "call"]
+    zeros = [d for d in ds if d[2] == "assign"]
+    if len(reads) != 1 or len(zeros) != 1:
+        return None
+    rd, zd = reads[0], zeros[0]
+    rv = zd[3]["rv"]
+    if rv["k"] != "use" or rv["op"].get("k") != "const":
+        return None
+    zt = T.of_operand(rv["op"])
+    if not (isinstance(zt, tuple) and zt[0] == "const" and zt[1] == 0):
+        return None
+    fn = rd[3]["func"].get("fn", {})
+    if (fn.get("method") or (fn.get("res_path") or "").rsplit("::", 1)[-1]) != "clone" or not rd[3]["args"]:
+        return None
+    at = T.of_operand(rd[3]["args"][0])
+    if not (isinstance(at, tuple) and len(at) == 4 and at[0] == "call" and at[1] == "index"):
+        return None
+    a = affine(at[3])
+    if a is None or a[3] != 1:
+        return None
+    lx = linear(at[3])
+    if lx is None:
+        return None
+    blocks = inst["blocks"]
+    dom, _ = dominators(blocks)
+    for sb in dom.get(rd[0], ()):
+        t = blocks[sb]["term"]
+        if not t or t["k"] != "switch" or t["discr"].get("k") not in ("copy", "move") or t["discr"]["p"]:
+            continue
+        dd = T.body.single_def(t["discr"]["l"])
+        if dd is None or dd[2] == "call":
+            continue
+        c = dd[3]["rv"]
+        if c["k"] != "binop" or c["op"] != "Lt":
+            continue
+        la, lb = linear(T.of_operand(c["a"])), linear(T.of_operand(c["b"]))
+        if la is None or lb is None or la != lx:
+            continue
+        vs, k0 = lb
+        if k0 != 0 or len(vs) != 1 or not list(vs)[0].startswith("len(") or list(vs.values())[0] != 1:
+            continue
+        succ = successors(t)
+        tr = [x for x in succ if bool_branch_taken(t, x)]
+        fa = [x for x in succ if not bool_branch_taken(t, x)]
+        if len(tr) == 1 and len(fa) == 1 and tr[0] in dom.get(rd[0], ()) and fa[0] in dom.get(zd[0], ()):
+            return (a[0], int(a[1]), int(a[2]))
+    return None
+
+
 def child_form(T, inst, local):
-    """If `local` holds subtotal(self, X): the affine form (coef, const) of X in the walking index, else None."""
+    """If `local` holds subtotal(self, X) — as a call, or written out at the use site — the affine form (coef, const) of X in the walking index, else None."""
     d = T.body.single_def(local)
-    if d is None or d[2] != "call":
+    if d is None:
+        return _inlined_child_form(T, inst, local)
+    if d[2] != "call":
         return None
     fn = d[3]["func"].get("fn", {})
     if not (fn.get("res_path") or "").endswith("WeightedTreeIndex::<W>::subtotal"):
